@@ -2,6 +2,6 @@
 # developer helper: refresh _CoqProject/Makefile and build targets (default: everything)
 here="$(cd "$(dirname "$0")" && pwd)"
 cd "$here" && /venv/bin/python tools/py2coq.py 2>/dev/null | grep -v conda; PYTHONPATH=$here/tools /venv/bin/python -c "import harness; harness.ensure_makefile()" 2>/dev/null
-cd coq && timeout 3000 make -j16 "$@" > /tmp/mk.log 2>&1; rc=$?
+cd coq && timeout 900 make -j16 "$@" > /tmp/mk.log 2>&1; rc=$?
 grep -v "^COQC\|^COQDEP\|^Axioms:\|^  :\|^    \|^[A-Z][A-Za-z]*\.[a-z_A-Z]*$\|Closed under\|CLEAN\|CoqMakefile\|sig_not_dec\|Classical_Prop.classic" /tmp/mk.log
 echo "mk rc=$rc"
